@@ -39,3 +39,9 @@ OBS += [
  Ob(['C10'], 'parse_top_number_garbage', 'jd_top', 'harness/jd_top.c', 'h_parse_top', defs=UT + ['KF_GARBAGE=1'], unwind=5, fs='none', cap=200, hunwind=12, kf='number-garbage',
     desc='known finding: a top-level number followed by a non-blank byte (1, / 2] / 6a9) is InvalidInput', bound='all 3-byte inputs'),
 ]
+DD = ['ARENA_N=4', 'ARENA_CHUNK=64']
+UNITS += [Unit('jd_dd', 'wrappers/jd.cpp', defs=DD)]
+for pl in (2, 5):
+    OBS.append(Ob(['C06', 'C14', 'C01'], 'dedup_json_pre%d' % pl, 'jd_dd', 'harness/dedup.c', 'h_dedup', defs=['UNIT_H="jd_dd.h"', 'PRELEN=%d' % pl], unwind=14, cap=300, hunwind=12, fs=512,
+        desc='parseStringValue of "ab\\u0000cd" into a pool holding one string of %d symbolic bytes: full length kept, shared iff identical, reference count exact (StringBuilder::save / StringPool)' % pl,
+        bound='all values of the %d bytes of the pre-existing string' % pl))
